@@ -233,11 +233,11 @@ func (cs *ContractSet) parseContractFile(path, pkgPath string, trusted bool) err
 					return fmt.Errorf("%s: bad loop clause kind %s", src, f[1])
 				}
 			case "modifies":
-				if rest == "heap" {
-					cur.ModHeap = true
-					break
-				}
 				for _, part := range splitTopLevel(rest) {
+					if part == "heap" {
+						cur.ModHeap = true
+						continue
+					}
 					txt := strings.ReplaceAll(part, "[*]", "[0]")
 					c, err := parseClause(txt, src)
 					if err != nil {
